@@ -28,6 +28,7 @@ func main() {
 	}
 	if os.Getenv("VERIF_HARNESS_CHILD") == "1" {
 		r := newRun(name, os.Args[2:])
+		warmCaches()
 		fn(r)
 		r.finish()
 		return
